@@ -323,6 +323,20 @@ class Program:
                         init = tgt.lookup('__init__')
                         if init:
                             callees.add(init.qualname)
+                    elif isinstance(node.func, ast.Attribute):
+                        # a method call on some object: any method of that name defined by a
+                        # class of the same module may be the callee (value classes)
+                        for c in fn.module.classes.values():
+                            m = c.methods.get(node.func.attr)
+                            if m is not None:
+                                callees.add(m.qualname)
+                elif isinstance(node, ast.Attribute) and isinstance(node.ctx, ast.Load):
+                    for c in fn.module.classes.values():
+                        m = c.methods.get(node.attr)
+                        if m is not None and any(
+                                ast.unparse(d).split('.')[-1] in ('property', 'cached_property')
+                                for d in m.node.decorator_list):
+                            callees.add(m.qualname)
             g[fn.qualname] = callees
         return g
 
